@@ -58,6 +58,9 @@ var nsxRules = []nsxRuleT{
 	{"r4", "DROP", "IN", 30, "ANY", "ANY", "ANY", false, ""},
 	{"r5", "ALLOW", "OUT", 20, "g:gA", "10.1.2.30", "tcp_80", true, "t1"},
 	{"r6", "ALLOW", "IN", 25, "g:gB", "g:gA", "tcp_80", false, ""},
+	// the same as r3 / r6 for the other address family
+	{"r7", "DROP", "OUT", 30, "ANY", "ANY", "ANY", false, "v6:"},
+	{"r8", "ALLOW", "IN", 25, "g:gB", "g:gA", "tcp_80", false, "v6:"},
 }
 
 type nsxCfgT struct {
@@ -103,8 +106,14 @@ func nsxJSON(c nsxCfgT) string {
 			if r.logged {
 				o["logged"] = true
 			}
-			if r.tag != "" {
-				o["tag"] = r.tag
+			// tag prefix "v6:" = the rule is an IPv6 rule
+			tag := r.tag
+			if t, ok := strings.CutPrefix(tag, "v6:"); ok {
+				tag = t
+				o["ip_protocol"] = "IPV6"
+			}
+			if tag != "" {
+				o["tag"] = tag
 			}
 			rules = append(rules, o)
 		}
@@ -659,7 +668,7 @@ func (x *nsxx) runChain() {
 }
 
 func nsxSpaces(ctx *core.Ctx) []*nsxSpace {
-	l := []*nsxSpace{nsxRuleSpace("rules", 6), nsxGroupSpace("groups", 4), nsxClashSpace(), nsxTwoGroupSpace("two-groups", nil), nsxServiceSpace(), nsxPolicySpace(), nsxCorpusSpace()}
+	l := []*nsxSpace{nsxRuleSpace("rules", 8), nsxGroupSpace("groups", 4), nsxClashSpace(), nsxTwoGroupSpace("two-groups", nil), nsxServiceSpace(), nsxPolicySpace(), nsxCorpusSpace()}
 	if ctx.Thorough() {
 		l = append(l, nsxGroupSpace("groups-x", 5))
 	}
